@@ -366,7 +366,9 @@ class StmtMixin:
         while b is not None and guard < 20:
             guard += 1
             cb = self.res(b, st)
-            if b.op == "NdAlloc" and child.op == "NdChunk":
+            if child.op == "NdChunk" and (b.op == "NdAlloc" or (child.extra or {}).get("nditer") is not None):
+                # a store into the chunk of an output operand (allocated by the iterator or supplied to it) is, over
+                # the whole loop, the same store into the operand
                 st.cur[b.id] = self.mk("Scatter", (cb, idx, value), aug, site)
             else:
                 vi = self.mk("ViewIdx", (child, idx), None, site)
